@@ -19,13 +19,13 @@ theorem C05_rule (E : Env) (o : CheckOpts) (t : Tree) (r : Row) :
         (o.skipHash = false ∧ ((E.H f.content).1 ≠ r.md5 ∨ (E.H f.content).2 ≠ r.sha1)) ∨
         E.extOf f.path ≠ r.ext ∨ f.content.length ≠ r.size ∨
         (o.noMtime = false ∧ f.mtime ≠ r.mtime ∧ E.roundSec f.mtime ≠ E.roundSec r.mtime) := by
-  sorry
+  exact rowErrors_ne_nil_iff E o t r
 
 /-- Check mode on the tree the database was generated from reports nothing and exits 0, for every
 option combination and for folder or single-file input. -/
 theorem C05_clean (E : Env) (o : CheckOpts) (t : Tree) (inp : Input) (hnd : (t.map (·.path)).Nodup) :
     check E o (genDb E t) t inp = { reported := [], exit := 0 } := by
-  sorry
+  exact check_clean E o t inp hnd
 
 /-- what counts as changed for a recorded file `f`, given the options, in the current tree `t'` -/
 def changed (E : Env) (o : CheckOpts) (t' : Tree) (f : File) : Bool :=
@@ -46,18 +46,29 @@ theorem C05_exact (E : Env) (o : CheckOpts) (t t' : Tree)
     check E o (genDb E t) t' .folder =
       { reported := (t.filter (changed E o t')).map (·.path),
         exit := if (t.filter (changed E o t')).isEmpty then 0 else 1 } := by
-  sorry
+  have _ := hnd   -- (not needed: a duplicated recorded path would simply be reported twice on both sides)
+  have hbad : ((genDb E t).filter (concerns .folder)).filter (fun r => !(rowErrors E o t' r).isEmpty)
+      = (t.filter (changed E o t')).map (rowOf E) := by
+    simp only [genDb, List.filter_map, List.filter_filter]
+    congr 1
+    apply List.filter_congr
+    intro f hf
+    simp only [Function.comp, concerns, Bool.and_true]
+    rw [rowErrors_rowOf_ne_nil_iff E o t' f (hcoll f hf)]
+    rfl
+  simp only [check, hbad, List.map_map, List.isEmpty_map]
+  rfl
 
 /-- Single-file input looks at that file's row only. -/
 theorem C05_single (E : Env) (o : CheckOpts) (db : List Row) (t : Tree) (n : String) :
     (check E o db t (.file n)).reported = ((check E o db t .folder).reported).filter (· = n) := by
-  sorry
+  exact check_single E o db t n
 
 /-- Non-vacuity: a one-bit change with size and time restored is reported. -/
 example :
     let E : Env := { H := fun c => (c.sum, c.length + c.headD 0), extOf := fun _ => "", roundSec := id }
     check E {} (genDb E [⟨"a", [1,2,3], 5⟩, ⟨"b", [4], 6⟩]) [⟨"a", [1,3,3], 5⟩, ⟨"b", [4], 6⟩] .folder
       = { reported := ["a"], exit := 1 } := by
-  sorry
+  decide
 
 end Pff.Rfigc
